@@ -367,7 +367,7 @@ func runC19(tb ev.TB, p c19Prog) ev.Result {
 			sorter{"FirstWriteWins", sorting.FirstWriteWins, true},
 			sorter{"NoZeroes(LastWriteWins)", sorting.NoZeroes(sorting.LastWriteWins), true})
 	}
-	if (len(p.Dups) == 0 && !equalPair) {
+	if len(p.Dups) == 0 && !equalPair {
 		sorters = append(sorters, sorter{"NoZeroes(SortByEntryHash)", sorting.NoZeroes(sorting.SortByEntryHash), true})
 	}
 	sorters = append(sorters, sorter{"Compare", sorting.Compare, false})
